@@ -333,10 +333,42 @@ def unsat_or_cex(chk, sess, guard, name, describe=None):
     size = m.cone_size([g])
     status, model = m.verdict_unsat(g, name)
     dt = time.time() - t0
-    chk.add_vc(name, status, dt, size)
+    detail = None
+    chk._nsolved = getattr(chk, "_nsolved", 0) + 1
+    if status == "unsat" and tier() == "thorough" and size <= 200000 and (chk._nsolved <= 10 or chk._nsolved % 25 == 0):
+        # second opinion: the same query as a stand-alone pure-Boolean SMT-LIB2 file, decided by
+        # the z3 4.8.12 binary (different version, different front end)
+        detail = second_opinion(chk, m, g, name)
+    chk.add_vc(name, status, dt, size, detail=detail)
     if status == "sat":
         return model
     return None
+
+
+def second_opinion(chk, m, g, name):
+    import tempfile
+
+    fd, path = tempfile.mkstemp(prefix="verif_vc_", suffix=".smt2", dir="/var/tmp")
+    os.close(fd)
+    try:
+        m.dump_smt2([g], path)
+        try:
+            p = subprocess.run(["/usr/bin/z3", "-T:300", path], capture_output=True, text=True, timeout=330)
+            out = p.stdout.strip().splitlines()
+            res = out[0] if out else "no output"
+            if "(error" in p.stdout:
+                res = "error: " + p.stdout[:100]
+        except subprocess.TimeoutExpired:
+            res = "timeout"
+        if res == "sat":
+            chk.harness_errors.append("solvers disagree on %s: z3 5.1 QF_FD unsat, z3 4.8.12 sat" % name)
+        chk.extra["second_solver_" + ("agree" if res == "unsat" else "other")] = chk.extra.get("second_solver_" + ("agree" if res == "unsat" else "other"), 0) + 1
+        return {"second_solver": "z3 4.8.12 binary", "result": res}
+    finally:
+        try:
+            os.remove(path)
+        except OSError:
+            pass
 
 
 def guarded(fn, args):
